@@ -188,7 +188,7 @@ func (e *Engine) checkDirect(r *relationTuple, restDepth int) checkgroup.CheckFu
 				WithError(err).
 				Error("failed to look up direct access in db")
 			resultCh <- checkgroup.Result{
-				Membership: checkgroup.NotMember,
+				Err: errors.WithStack(err),
 			}
 
 		case found:
